@@ -291,8 +291,11 @@ def run_property(prop, tier, seed=0, only=None):
         "wall_s": round(time.time() - t0, 1),
         "violations": new_violations,
     }
-    os.makedirs(os.path.join(VERIF, "evidence"), exist_ok=True)
-    with open(os.path.join(VERIF, "evidence", "%s.json" % prop), "w") as fh:
+    # evidence describes runs against /repo itself; runs against a scratch tree ($VERIF_REPO, used to evaluate seeded
+    # changes) or restricted with --only must not overwrite it
+    evdir = os.path.join(VERIF, "evidence") if (REPO == "/repo" and not only) else os.path.join(ctx.scratch, "evidence-not-kept")
+    os.makedirs(evdir, exist_ok=True)
+    with open(os.path.join(evdir, "%s.json" % prop), "w") as fh:
         json.dump(ev, fh, indent=1, default=str)
 
     for q in by[UNDECIDED]:
